@@ -332,6 +332,7 @@ func elemLaws(c *props.Ctx) {
 		R.Hold("ELEM-1", construct, pos, append(baseFacts, short(fmt.Sprintf("%d components equal as polynomial identities; e.g. %s = %s", len(got), labels[0], s.Show(got[0], 4))))...)
 	}
 	R.Floor("ELEM-1", 6)
+	areaLaws(c, s)
 }
 
 func short(s string) string {
